@@ -100,6 +100,67 @@ Example C09_example : exists s, run init ex_labels = Some s /\
 Proof. eexists. split; [vm_compute; reflexivity|reflexivity]. Qed.
 Print Assumptions C09_example.
 
+(* ---- the hand-over BEFORE the caller listens ---------------------------------------------------------
+   In [step2] the channel send of the receive loop (writeRPCResponse: `v <- data`; the retry marker of
+   bad_server_salt) is one step that is enabled when its receiver is blocked in `<-resp`.  The running client
+   has no such guard: the loop walks into the send whenever the scheduler lets it - for instance while the caller
+   has written its request but not yet returned from sendPacket - and waits there, the channel being unbuffered.
+   Client/Rendezvous.v is that finer system ([xstep]: a state of Live.v plus "the loop stands inside its send";
+   a commit label; the send completes in the same breath as the step that makes its receiver ready).
+   It reaches nothing new: every history of it is, commits erased and completions written out ([canon]), a
+   history of step2 with the same final state - so C09_routing_live (and every other invariant of Live.v) holds
+   for all interleavings of the finer system too; the completion inside a committed state is never refused; and
+   every history of step2 is one of the finer system.  The harness operation `early rx` drives the real client
+   through a commit and records the canonical order. *)
+From MTV Require Import Client.Rendezvous.
+
+Theorem C09_early_handover_refines : forall ls x x',
+  xrun x ls = Some x' -> run2 (cur x) (canon x ls) = Some (cur x').
+Proof. exact xrefines. Qed.
+Print Assumptions C09_early_handover_refines.
+
+Theorem C09_routing_early : forall c ls x, xrun (plain (init2 c)) ls = Some x ->
+  rx (base (cur x)) <> RDead /\
+  (forall t k i r, In (t, k, i, r) (rets (base (cur x))) ->
+     exists h v,
+       sent_req (base (cur x)) i t k h /\
+       (forall t' k' h', sent_req (base (cur x)) i t' k' h' -> t' = t /\ k' = k /\ h' = h) /\
+       (forall w, In w (wire (base (cur x))) -> on_call w t k -> w_id w <= i) /\
+       In (EDisp i v) (elog (base (cur x))) /\ ret_of v = Some r /\
+       (vec_val v = true -> h = true) /\
+       ~ rejected (base (cur x)) i) /\
+  NoDup (map ret_id (rets (base (cur x)))) /\
+  NoDup (map ret_call (rets (base (cur x)))).
+Proof.
+  intros c ls x H. exact (C09_routing_live c (canon (plain (init2 c)) ls) (cur x) (xrefines ls _ _ H)).
+Qed.
+Print Assumptions C09_routing_early.
+
+Theorem C09_early_completion_never_refused : forall c ls x l s1,
+  xrun (plain (init2 c)) ls = Some x -> committed x = true -> is_rx_step l = false ->
+  step2 (cur x) l = Some s1 -> exists x', xstep x l = Some x'.
+Proof.
+  intros c ls x l s1 H. apply xcomplete_never_refused. exact (XInv_run ls _ _ (XInv_plain _) H).
+Qed.
+Print Assumptions C09_early_completion_never_refused.
+
+Theorem C09_live_histories_are_early_histories : forall ls s s',
+  run2 s ls = Some s' -> xrun (plain s) ls = Some (plain s').
+Proof. exact run2_is_xrun. Qed.
+Print Assumptions C09_live_histories_are_early_histories.
+
+(* Non-vacuity: request 40 is answered while its caller is still inside sendPacket; the loop commits to the
+   hand-over (step2 refuses that label), the caller returns from sendPacket and has its answer. *)
+Example C09_example_early :
+  option_map (fun x => (committed x, rets (base (cur x)))) (xrun (plain (init2 cfg_plain)) ex_early)
+    = Some (false, [(0%nat, 1%nat, 40, RetVal KObj 8)]) /\
+  option_map (fun x => committed x) (xrun (plain (init2 cfg_plain)) (firstn 7 ex_early)) = Some true /\
+  run2 (init2 cfg_plain) (firstn 7 ex_early) = None /\
+  canon (plain (init2 cfg_plain)) ex_early =
+    firstn 6 ex_early ++ [L1 (LStep (ACaller 0) 0); L1 (LStep ARx 0)].
+Proof. exact ex_early_accepted. Qed.
+Print Assumptions C09_example_early.
+
 (* ---- the key under which the receive loop looks up a message's decoder hints (mtproto.go reqMsgIDOf) ----
    model and proofs: TL/ReqId.v.  The hints a caller registered sit under the id of ITS request, so an answer finds
    them exactly when this function returns that id: for a result, plain or packed as a whole, it is the req_msg_id the
